@@ -292,3 +292,12 @@ Fixpoint run (h : hub) (es : list event) : hub * list out :=
     let '(h2, o2) := run h1 rest in
     (h2, o1 ++ o2)
   end.
+
+(** The hot upgrade of the main process ([upgrade_main] -> [generate_upgrade_data]
+    -> JSON -> [CommandHub::from_upgrade_data]), minus the fork: what the new
+    main process starts from.  [UpgradeData] carries the configuration, the
+    state, the id counters and the workers that are neither Stopped nor
+    Stopping; it carries no task, no in-flight request id and no client. *)
+Definition handover (h : hub) : hub :=
+  mkHub (filter (fun ws => negb (snd ws)) (workers h)) [] [] (now h) (next_task h) (next_rq h)
+        false (timeout h) [].
